@@ -1,16 +1,59 @@
 (* The generated subgrid.segment_indices (generated/GenSeg.v, regenerated from the source by tools/gen_seg.py).
    Ucat.v has no model of segment_indices itself: its walk is Ucat.seg with incl = true (segment_paths), with two additions
-   that are modelled here (segm / segment_indices_model): the walk also stops when the segment has max_len > 0 cells, and a
-   zero-length line [p; p] is added at a pit.  Proved:
+   that are modelled here (segm / segment_indices_model): a segment of more than max_len > 0 cells is divided into pieces
+   with the splitting of streams.streams (Vect.cut: k = round(l / max_len) pieces of n = round(l / k) links, consecutive
+   pieces share a cell), and a zero-length line [p; p] is added at a pit.  (Before the repair of finding F19 the walk
+   stopped at max_len cells and the rest of the segment was lost.)  Proved:
      gen_segment_indices ... = Some r -> r = segment_indices_model ...                     (partial, no hypothesis)
      gen_segment_indices ... = Some (segment_indices_model ...)                            (total, when no walk takes n steps)
-     max_len <= 0 -> the cells of a walk of the model are o :: Ucat.seg ... true n o       (the tie to the hand model)
-   and with them the total form on a loop-free network for max_len <= 0. *)
-From Coq Require Import List Arith ZArith Bool Lia.
+     the cells of a walk of the model are o :: Ucat.seg ... true n o                       (the tie to the hand model)
+   and with them the total form on a loop-free network, for every max_len. *)
+From Coq Require Import List Arith ZArith QArith Qround Bool Lia.
 Import ListNotations.
-From PF Require Import Arr Net NetBound Ucat TermSeg GenCoreBaseEq GenSegBaseEq.
+From PF Require Import Arr Net NetBound Ucat TermSeg Vect VectSpec GenCoreBaseEq GenSegBaseEq GenSegStreamsEq.
 From PFG Require Import GenCore GenSeg.
 Local Open Scope Z_scope.
+
+(* ---- the splitting loop (the text of streams.streams): out ++ cut idxs max_len ---- *)
+Lemma indices_split_cut (outs nxt : list nat) (mask : option (list bool)) (max_len : Z) (out : list (list nat)) (idxs : list nat) :
+  (if (Z.of_nat (length idxs) >? max_len) && (max_len >? 0) then
+     let '(n, k) := if negb (Qle_bool (inject_Z (Z.of_nat (length idxs)) / inject_Z max_len)%Q (3 # 2)%Q)
+                   then (py_round (inject_Z (Z.of_nat (length idxs)) / inject_Z (py_round (inject_Z (Z.of_nat (length idxs)) / inject_Z max_len)%Q))%Q,
+                         py_round (inject_Z (Z.of_nat (length idxs)) / inject_Z max_len)%Q)
+                   else (Z.of_nat (length idxs), 1) in
+     fold_left (gen_segment_indices_loop4_step outs nxt mask max_len idxs n k) (seq 0 (Z.to_nat k)) out
+   else out ++ [idxs]) = out ++ cut idxs max_len.
+Proof.
+  unfold cut. set (l := Z.of_nat (length idxs)).
+  destruct ((l >? max_len) && (max_len >? 0)) eqn:Ec; [|reflexivity].
+  apply andb_prop in Ec. destruct Ec as [Ec1 Ec2].
+  assert (Hm : 1 <= max_len) by lia. assert (Hl : 0 <= l) by (unfold l; lia).
+  rewrite (qdiv_to_pos l max_len Hm).
+  set (ratio := (l # Z.to_pos max_len)%Q).
+  assert (Hkn : (if negb (Qle_bool ratio (3 # 2))
+                 then (py_round (inject_Z l / inject_Z (py_round ratio)), py_round ratio) else (l, 1)) =
+                (let '(k, n) := if Qlt_le_dec (3 # 2) ratio then (py_round ratio, py_round (l # Z.to_pos (py_round ratio))%Q)
+                                else (1, l) in (n, k))).
+  { destruct (Qlt_le_dec (3 # 2) ratio) as [H|H].
+    - assert (Hb : Qle_bool ratio (3 # 2) = false).
+      { destruct (Qle_bool ratio (3 # 2)) eqn:E; [|reflexivity]. apply Qle_bool_iff in E.
+        exfalso. apply (Qlt_irrefl ratio). eapply Qle_lt_trans; eauto. }
+      rewrite Hb. cbn [negb].
+      assert (Hk : 1 <= py_round ratio).
+      { apply py_round_pos. apply Qlt_le_weak. apply Qle_lt_trans with (y := (3 # 2)%Q); auto. unfold Qle; simpl; lia. }
+      rewrite (qdiv_to_pos l _ Hk). reflexivity.
+    - apply Qle_bool_iff in H. rewrite H. reflexivity. }
+  rewrite Hkn. clear Hkn.
+  assert (Hn : 0 <= snd (if Qlt_le_dec (3 # 2) ratio then (py_round ratio, py_round (l # Z.to_pos (py_round ratio))%Q) else (1, l))).
+  { destruct (Qlt_le_dec (3 # 2) ratio); cbn [snd]; [|exact Hl]. apply py_round_nonneg. unfold Qle; simpl; lia. }
+  destruct (if Qlt_le_dec (3 # 2) ratio then (py_round ratio, py_round (l # Z.to_pos (py_round ratio))%Q) else (1, l)) as [k n].
+  cbn [snd] in Hn.
+  rewrite (fold_left_ext_in' _ (fun st i => st ++ [if (Z.of_nat i + 1 =? k) then skipn (i * Z.to_nat n) idxs
+                else slice idxs (i * Z.to_nat n) (Z.to_nat n * (i + 1) + 1)])).
+  - rewrite fold_snoc_map. reflexivity.
+  - intros a x _. unfold gen_segment_indices_loop4_step, slice. cbv zeta. rewrite to_nat_mul, (to_nat_end x n Hn).
+    destruct (Z.of_nat x + 1 =? k); reflexivity.
+Qed.
 
 (* ---- for i in L: out += l_i (or fail) ---- *)
 Section AppLoop.
@@ -44,93 +87,101 @@ Notation isout := (outflag outs).
 Notation maskok := (mok mask).
 Notation outl := (fold_left (ostep n) outs (repeat false n)).
 
-(* the walk of segment_indices from cur, with k cells collected so far: (cells appended, pixel after the last one, pit?) *)
-Fixpoint segm (fuel : nat) (cur : nat) (k : nat) : list nat * nat * bool :=
+(* the walk of segment_indices from cur: (cells appended, pixel after the last one, pit?) *)
+Fixpoint segm (fuel : nat) (cur : nat) : list nat * nat * bool :=
   let x := nth cur nxt n in
   let pit := (x =? cur)%nat in
-  if (n <=? x)%nat || (pit || (negb (maskok x) || ((max_len >? 0) && (Z.of_nat k =? max_len)))) then ([], x, pit)
+  if (n <=? x)%nat || (pit || negb (maskok x)) then ([], x, pit)
   else if isout x then ([x], x, pit)
   else match fuel with
        | O => ([], x, pit)
-       | S f => let '(p, y, b) := segm f x (S k) in (x :: p, y, b)
+       | S f => let '(p, y, b) := segm f x in (x :: p, y, b)
        end.
 
+(* the pieces that one outlet pixel contributes: the divided segment (if it has a link) and the zero-length line at a pit *)
+Definition seg_pieces (o : nat) (p : list nat) (y : nat) (b : bool) : list (list nat) :=
+  (if (1 <? length (o :: p))%nat then cut (o :: p) max_len else []) ++ (if b then [[y; y]] else []).
+
 Definition segment_indices_model : list (list nat) :=
-  flat_map (fun o => if (o <? n)%nat
-                     then let '(p, y, b) := segm n o 1 in
-                          (if (1 <? length (o :: p))%nat then [o :: p] else []) ++ (if b then [[y; y]] else [])
-                     else []) outs.
+  flat_map (fun o => if (o <? n)%nat then let '(p, y, b) := segm n o in seg_pieces o p y b else []) outs.
 
 (* the same walk with an error value, and with the (unused) last value of `idx` *)
-Fixpoint osegm (fuel : nat) (cur : nat) (k : nat) : option (list nat * nat * nat * bool) :=
+Fixpoint osegm (fuel : nat) (cur : nat) : option (list nat * nat * nat * bool) :=
   let x := nth cur nxt n in
   let pit := (x =? cur)%nat in
-  if (n <=? x)%nat || (pit || (negb (maskok x) || ((max_len >? 0) && (Z.of_nat k =? max_len)))) then Some ([], cur, x, pit)
+  if (n <=? x)%nat || (pit || negb (maskok x)) then Some ([], cur, x, pit)
   else if isout x then Some ([x], cur, x, pit)
   else match fuel with
        | O => None
-       | S f => match osegm f x (S k) with None => None | Some (p, c, y, b) => Some (x :: p, c, y, b) end
+       | S f => match osegm f x with None => None | Some (p, c, y, b) => Some (x :: p, c, y, b) end
        end.
 
-Lemma osegm_segm : forall fuel cur k p c y b, osegm fuel cur k = Some (p, c, y, b) -> segm fuel cur k = (p, y, b).
+Lemma osegm_segm : forall fuel cur p c y b, osegm fuel cur = Some (p, c, y, b) -> segm fuel cur = (p, y, b).
 Proof.
-  induction fuel as [|f IH]; intros cur k p c y b; cbn [osegm segm]; cbv zeta;
-    destruct ((n <=? nth cur nxt n)%nat || ((nth cur nxt n =? cur)%nat || (negb (maskok (nth cur nxt n)) || ((max_len >? 0) && (Z.of_nat k =? max_len)))));
+  induction fuel as [|f IH]; intros cur p c y b; cbn [osegm segm]; cbv zeta;
+    destruct ((n <=? nth cur nxt n)%nat || ((nth cur nxt n =? cur)%nat || negb (maskok (nth cur nxt n))));
     try congruence; destruct (isout (nth cur nxt n)); try congruence.
-  destruct (osegm f (nth cur nxt n) (S k)) as [[[[p' c'] y'] b']|] eqn:E; [|discriminate].
-  intros H. injection H as <- <- <- <-. rewrite (IH _ _ _ _ _ _ E). reflexivity.
+  destruct (osegm f (nth cur nxt n)) as [[[[p' c'] y'] b']|] eqn:E; [|discriminate].
+  intros H. injection H as <- <- <- <-. rewrite (IH _ _ _ _ _ E). reflexivity.
 Qed.
 
-Lemma osegm_none : forall fuel cur k, osegm fuel cur k = None -> length (fst (fst (segm fuel cur k))) = fuel.
+Lemma osegm_none : forall fuel cur, osegm fuel cur = None -> length (fst (fst (segm fuel cur))) = fuel.
 Proof.
-  induction fuel as [|f IH]; intros cur k; cbn [osegm segm]; cbv zeta;
-    destruct ((n <=? nth cur nxt n)%nat || ((nth cur nxt n =? cur)%nat || (negb (maskok (nth cur nxt n)) || ((max_len >? 0) && (Z.of_nat k =? max_len)))));
+  induction fuel as [|f IH]; intros cur; cbn [osegm segm]; cbv zeta;
+    destruct ((n <=? nth cur nxt n)%nat || ((nth cur nxt n =? cur)%nat || negb (maskok (nth cur nxt n))));
     try discriminate; destruct (isout (nth cur nxt n)); try discriminate; [reflexivity|].
-  destruct (osegm f (nth cur nxt n) (S k)) as [[[[p' c'] y'] b']|] eqn:E; [discriminate|]. intros _.
-  specialize (IH _ _ E). destruct (segm f (nth cur nxt n) (S k)) as [[p y] b]. cbn [fst length] in *. lia.
+  destruct (osegm f (nth cur nxt n)) as [[[[p' c'] y'] b']|] eqn:E; [discriminate|]. intros _.
+  specialize (IH _ E). destruct (segm f (nth cur nxt n)) as [[p y] b]. cbn [fst length] in *. lia.
 Qed.
 
-(* the tie to the hand model: without a maximum length the cells are those of Ucat.seg with incl = true *)
-Lemma segm_seg : max_len <= 0 -> forall fuel cur k, fst (fst (segm fuel cur k)) = seg nxt isout maskok true fuel cur.
+(* the tie to the hand model: the cells are those of Ucat.seg with incl = true, whatever max_len is *)
+Lemma segm_seg : forall fuel cur, fst (fst (segm fuel cur)) = seg nxt isout maskok true fuel cur.
 Proof.
-  intros Hm. assert (Hz : (max_len >? 0) = false) by (destruct (Z.gtb_spec max_len 0); [lia|reflexivity]).
-  induction fuel as [|f IH]; intros cur k; cbn [segm Ucat.seg]; cbv zeta; rewrite Hz; cbn [andb]; rewrite orb_false_r, !orb_assoc;
+  induction fuel as [|f IH]; intros cur; cbn [segm Ucat.seg]; cbv zeta; rewrite !orb_assoc;
     destruct ((n <=? nth cur nxt n)%nat || (nth cur nxt n =? cur)%nat || negb (maskok (nth cur nxt n))); try reflexivity;
     destruct (isout (nth cur nxt n)); try reflexivity.
-  specialize (IH (nth cur nxt n) (S k)). destruct (segm f (nth cur nxt n) (S k)) as [[p y] b]. cbn [fst] in *. rewrite IH. reflexivity.
+  specialize (IH (nth cur nxt n)). destruct (segm f (nth cur nxt n)) as [[p y] b]. cbn [fst] in *. rewrite IH. reflexivity.
 Qed.
 
 Lemma idx_loop3 : forall fuel pre cur,
   gen_segment_indices_loop3 outs nxt mask max_len outl fuel (pre, cur) =
-  option_map (fun t => let '(p, c, y, b) := t in (pre ++ p, c, y, b)) (osegm fuel cur (length pre)).
+  option_map (fun t => let '(p, c, y, b) := t in (pre ++ p, c, y, b)) (osegm fuel cur).
 Proof.
   induction fuel as [|f IH]; intros pre cur; cbn [gen_segment_indices_loop3 osegm]; cbv zeta; rewrite mask_test;
     set (x := nth cur nxt n);
     (destruct (Nat.leb_spec n x) as [Hn|Hn]; cbn [orb option_map]; [rewrite app_nil_r; reflexivity|]);
-    (destruct ((x =? cur)%nat || (negb (maskok x) || ((max_len >? 0) && (Z.of_nat (length pre) =? max_len)))); cbn [option_map];
+    (destruct ((x =? cur)%nat || negb (maskok x)); cbn [option_map];
        [rewrite app_nil_r; reflexivity|]);
     rewrite (outl_spec n outs x Hn); (destruct (isout x); cbn [option_map]; [reflexivity|]).
   - reflexivity.
-  - rewrite IH. rewrite app_length. cbn [length]. rewrite Nat.add_1_r.
-    destruct (osegm f x (S (length pre))) as [[[[p c] y] b]|]; [|reflexivity]. cbn [option_map].
+  - rewrite IH.
+    destruct (osegm f x) as [[[[p c] y] b]|]; [|reflexivity]. cbn [option_map].
     rewrite <- app_assoc. reflexivity.
 Qed.
 
 Definition idx_h (i : nat) : option (list (list nat)) :=
   let o := nth i outs n in
   if (n <=? o)%nat then Some []
-  else match osegm n o 1 with
+  else match osegm n o with
        | None => None
-       | Some (p, c, y, b) => Some ((if (1 <? length (o :: p))%nat then [o :: p] else []) ++ (if b then [[y; y]] else []))
+       | Some (p, c, y, b) => Some (seg_pieces o p y b)
        end.
 
 Lemma idx_step st i : gen_segment_indices_loop2_step outs nxt mask max_len outl st i = astep idx_h st i.
 Proof.
   unfold gen_segment_indices_loop2_step, astep, idx_h. cbv zeta. destruct (Nat.leb_spec n (nth i outs n)) as [Ho|Ho]; [rewrite app_nil_r; reflexivity|].
-  rewrite idx_loop3. change (length [nth i outs n]) with 1%nat. destruct (osegm n (nth i outs n) 1) as [[[[p c] y] b]|]; [|reflexivity]. cbn [option_map app].
-  assert (E : (Z.of_nat (length (nth i outs n :: p)) >? 1) = (1 <? length (nth i outs n :: p))%nat).
-  { destruct (Z.gtb_spec (Z.of_nat (length (nth i outs n :: p))) 1); destruct (Nat.ltb_spec 1 (length (nth i outs n :: p))); try reflexivity; lia. }
-  rewrite E. destruct (1 <? length (nth i outs n :: p))%nat; destruct b; cbn [app]; rewrite <- ?app_assoc, ?app_nil_r; reflexivity.
+  rewrite idx_loop3. destruct (osegm n (nth i outs n)) as [[[[p c] y] b]|]; [|reflexivity]. cbn [option_map app].
+  unfold seg_pieces. set (idxs := nth i outs n :: p).
+  assert (E : (Z.of_nat (length idxs) >? 1) = (1 <? length idxs)%nat).
+  { destruct (Z.gtb_spec (Z.of_nat (length idxs)) 1); destruct (Nat.ltb_spec 1 (length idxs)); try reflexivity; lia. }
+  rewrite E. destruct (1 <? length idxs)%nat.
+  - pose proof (indices_split_cut outs nxt mask max_len st idxs) as Hc.
+    destruct ((Z.of_nat (length idxs) >? max_len) && (max_len >? 0)).
+    + rewrite app_assoc, <- Hc.
+      destruct (if negb (Qle_bool (inject_Z (Z.of_nat (length idxs)) / inject_Z max_len) (3 # 2)) then _ else _) as [n0 k].
+      destruct b; [reflexivity|rewrite app_nil_r; reflexivity].
+    + rewrite app_assoc, <- Hc. destruct b; [reflexivity|rewrite app_nil_r; reflexivity].
+  - destruct b; cbn [app]; rewrite ?app_nil_r; reflexivity.
 Qed.
 
 Lemma idx_run : gen_segment_indices outs nxt mask max_len = ofold (astep idx_h) (seq 0 (length outs)) [].
@@ -146,13 +197,12 @@ Lemma idx_model : (forall i, (i < length outs)%nat -> idx_h i <> None) ->
   flat_map (aval idx_h) (seq 0 (length outs)) = segment_indices_model.
 Proof.
   intros H. unfold segment_indices_model.
-  rewrite <- (flat_map_seq_nth (fun o => if (o <? n)%nat then let '(p, y, b) := segm n o 1 in
-                 (if (1 <? length (o :: p))%nat then [o :: p] else []) ++ (if b then [[y; y]] else []) else []) outs n).
+  rewrite <- (flat_map_seq_nth (fun o => if (o <? n)%nat then let '(p, y, b) := segm n o in seg_pieces o p y b else []) outs n).
   rewrite !flat_map_concat_map. f_equal. apply map_ext_in. intros i Hi. apply in_seq in Hi.
   specialize (H i ltac:(lia)). revert H. unfold aval, idx_h. cbv zeta. set (o := nth i outs n).
   destruct (Nat.leb_spec n o) as [Ho|Ho]; destruct (Nat.ltb_spec o n) as [H1|H1]; try (exfalso; lia).
   - reflexivity.
-  - destruct (osegm n o 1) as [[[[p c] y] b]|] eqn:E; [|congruence]. intros _. rewrite (osegm_segm _ _ _ _ _ _ _ E). reflexivity.
+  - destruct (osegm n o) as [[[[p c] y] b]|] eqn:E; [|congruence]. intros _. rewrite (osegm_segm _ _ _ _ _ _ E). reflexivity.
 Qed.
 
 Theorem gen_segment_indices_partial r : gen_segment_indices outs nxt mask max_len = Some r -> r = segment_indices_model.
@@ -162,40 +212,43 @@ Proof.
   rewrite aloop_total in H by (intros i Hi; apply Hh; apply in_seq in Hi; lia). cbn [app] in H. injection H as <-. apply idx_model. exact Hh.
 Qed.
 
-Definition walks_end_m : Prop := forall o, In o outs -> (o < n)%nat -> (length (fst (fst (segm n o 1))) < n)%nat.
+Definition walks_end_m : Prop := forall o, In o outs -> (o < n)%nat -> (length (fst (fst (segm n o))) < n)%nat.
 
 Theorem gen_segment_indices_eq : walks_end_m -> gen_segment_indices outs nxt mask max_len = Some segment_indices_model.
 Proof.
   intros Hw. assert (Hh : forall i, (i < length outs)%nat -> idx_h i <> None).
   { intros i Hi. unfold idx_h. cbv zeta. destruct (Nat.leb_spec n (nth i outs n)) as [Ho|Ho]; [discriminate|].
-    destruct (osegm n (nth i outs n) 1) as [[[[p c] y] b]|] eqn:E; [discriminate|]. apply osegm_none in E.
+    destruct (osegm n (nth i outs n)) as [[[[p c] y] b]|] eqn:E; [discriminate|]. apply osegm_none in E.
     specialize (Hw _ (nth_In _ _ Hi) Ho). lia. }
   rewrite idx_run, aloop_total by (intros i Hi; apply Hh; apply in_seq in Hi; lia). cbn [app]. f_equal. apply idx_model. exact Hh.
 Qed.
 
-(* without a maximum length: the cells of every walk are those of the hand model, and on a loop-free network the fuel suffices *)
-Theorem segment_indices_model_paths : max_len <= 0 ->
-  map (fun o => if (o <? n)%nat then o :: fst (fst (segm n o 1)) else []) outs = segment_paths nxt outs mask true.
-Proof. intros Hm. unfold segment_paths. apply map_ext. intros o. rewrite (segm_seg Hm). reflexivity. Qed.
+(* the cells of every walk are those of the hand model (for every max_len), and on a loop-free network the fuel suffices *)
+Theorem segment_indices_model_paths :
+  map (fun o => if (o <? n)%nat then o :: fst (fst (segm n o)) else []) outs = segment_paths nxt outs mask true.
+Proof. unfold segment_paths. apply map_ext. intros o. rewrite segm_seg. reflexivity. Qed.
 
-Corollary gen_segment_indices_topo sq : max_len <= 0 -> topo nxt sq -> complete nxt sq ->
+Corollary gen_segment_indices_topo sq : topo nxt sq -> complete nxt sq ->
   gen_segment_indices outs nxt mask max_len = Some segment_indices_model.
 Proof.
-  intros Hm Ht Hc. apply gen_segment_indices_eq. intros o _ Ho. rewrite (segm_seg Hm).
+  intros Ht Hc. apply gen_segment_indices_eq. intros o _ Ho. rewrite segm_seg.
   destruct (seg_short nxt isout maskok true sq Ht Hc o) as [H|H]; [exact H|]. rewrite H. cbn [length]. lia.
 Qed.
 End Indices.
 
-(* satisfiable and not vacuous: 6 cells, 5 -> 4 -> 3 -> 2 -> 1 -> 0 (pit), outlet pixels 5 and 2 and a missing one *)
+(* satisfiable and not vacuous: 6 cells, 5 -> 4 -> 3 -> 2 -> 1 -> 0 (pit), outlet pixels 5 and 2 and a missing one;
+   with max_len = 3 the segment 5-4-3-2 of four cells is kept whole (4 / 3 <= 1.5), with max_len = 2 it is divided in two (and 2-1-0, 3 / 2 <= 1.5, is kept whole) *)
 Example segment_indices_example :
   topo [0;0;1;2;3;4]%nat [0;1;2;3;4;5]%nat /\ complete [0;0;1;2;3;4]%nat [0;1;2;3;4;5]%nat /\
   gen_segment_indices [5;6;2]%nat [0;0;1;2;3;4]%nat None 0 = Some [[5;4;3;2]; [2;1;0]; [0;0]]%nat /\
   segment_indices_model [0;0;1;2;3;4]%nat [5;6;2]%nat None 0 = [[5;4;3;2]; [2;1;0]; [0;0]]%nat /\
   gen_segment_indices [5;6;2]%nat [0;0;1;2;3;4]%nat None 3 = Some (segment_indices_model [0;0;1;2;3;4]%nat [5;6;2]%nat None 3) /\
-  segment_indices_model [0;0;1;2;3;4]%nat [5;6;2]%nat None 3 = [[5;4;3]; [2;1;0]; [0;0]]%nat.
+  segment_indices_model [0;0;1;2;3;4]%nat [5;6;2]%nat None 3 = [[5;4;3;2]; [2;1;0]; [0;0]]%nat /\
+  gen_segment_indices [5;6;2]%nat [0;0;1;2;3;4]%nat None 2 = Some (segment_indices_model [0;0;1;2;3;4]%nat [5;6;2]%nat None 2) /\
+  segment_indices_model [0;0;1;2;3;4]%nat [5;6;2]%nat None 2 = [[5;4;3]; [3;2]; [2;1;0]; [0;0]]%nat.
 Proof.
   split; [apply check_topo_sound; vm_compute; reflexivity|].
-  split; [apply check_complete_sound; vm_compute; reflexivity|]. vm_compute. auto.
+  split; [apply check_complete_sound; vm_compute; reflexivity|]. vm_compute. repeat split; reflexivity.
 Qed.
 
 Print Assumptions gen_segment_indices_partial.
